@@ -602,7 +602,7 @@ func (m *Model) RunNondet(s *Sink, rule string, fns []*ssa.Function) {
 						continue
 					}
 					pk := sc.Pkg.Pkg.Path()
-					if nondetPkgs[pk] || nondetFuncs[pk+"."+sc.Name()] {
+					if nondetPkgs[pk] || nondetFuncs[pk+"."+canonFnName(sc)] {
 						what = "call to " + fnFullName(sc)
 					}
 				}
